@@ -153,7 +153,7 @@ def gen_plate(world, draw, profile):
     if custom:
         rows = [f"r{i + 1}" for i in range(nr)] if draw(st.booleans()) else nr
         cols = [f"k{chr(97 + i)}" for i in range(nc)] if draw(st.booleans()) else nc
-    return {'op': 'plate', 'name': world.fresh_name('p'), 'cap': draw(st.sampled_from(PLATE_CAPS)),
+    return {'op': 'plate', 'name': world.fresh_name('p'), 'cap': draw(st.sampled_from(profile.get('plate_caps', PLATE_CAPS))),
             'rows': rows, 'cols': cols}
 
 
